@@ -37,13 +37,13 @@ type judgeOpts struct {
 }
 
 var kindPatterns = map[string]*regexp.Regexp{
-	model.EZeroDiv:     regexp.MustCompile(`(?i)zero`),
-	model.EIndex:       regexp.MustCompile(`(?i)index|bound`),
-	model.ENotArray:    regexp.MustCompile(`(?i)array|index`),
-	model.ENotCallable: regexp.MustCompile(`(?i)call`),
-	model.EType:        regexp.MustCompile(`(?i)operand|number|integer|string|expected|must`),
-	model.ENegShift:    regexp.MustCompile(`(?i)shift|negative|operand|integer`),
-	model.ENotObject:   regexp.MustCompile(`(?i)object|property`),
+	model.EZeroDiv:     regexp.MustCompile(`(?i)zero|\b0\b|divi|modul|শূন্য`),
+	model.EIndex:       regexp.MustCompile(`(?i)index|bound|range|subscript|integer|ইনডেক্স`),
+	model.ENotArray:    regexp.MustCompile(`(?i)array|index|list|subscript|অ্যারে`),
+	model.ENotCallable: regexp.MustCompile(`(?i)call|function|invoke|ফাংশন`),
+	model.EType:        regexp.MustCompile(`(?i)operand|number|integer|string|expected|must|type|invalid|unsupported|cannot|can't`),
+	model.ENegShift:    regexp.MustCompile(`(?i)shift|negative|operand|integer|count`),
+	model.ENotObject:   regexp.MustCompile(`(?i)object|property|field|member|অবজেক্ট|অব্জেক্ট`),
 }
 
 // kindMatches implements the lenient kind classes of DESIGN.md section 3.
